@@ -226,3 +226,12 @@ func sortedKeys(m map[string]any) []string {
 }
 
 func pathEscape(s string) string { return url.PathEscape(s) }
+
+type jsonRaw []byte
+
+func (j jsonRaw) MarshalJSON() ([]byte, error) {
+	if len(j) == 0 {
+		return []byte("null"), nil
+	}
+	return j, nil
+}
